@@ -1,20 +1,35 @@
 package corerad
 
-import "time"
+import (
+	"time"
 
-// H05a: multicastDelay for every index, every accepted (min,max) pair and
-// every random draw.
+	"github.com/mdlayher/corerad/internal/config"
+)
+
+// zzRoundSec: d rounded half-up to a whole second (d >= 0), in plain integer
+// arithmetic -- the reference for Duration.Round(time.Second).
+func zzRoundSec(d time.Duration) time.Duration {
+	return (d + 500*time.Millisecond) / time.Second * time.Second
+}
+
+// H05a: multicastDelay for every index, every (min,max) pair the real parser
+// accepts (nanosecond granularity, explicit and defaulted min) and every
+// random draw.
 func zzH05a() {
 	i := zzNondetInt("i")
 	zzAssume(i >= 0)
-	min := zzNondetDuration("min")
-	max := zzNondetDuration("max")
-	// accepted pairs (C02): 4s <= max <= 1800s; min == max (only < 9s by default) or 3s <= min <= 0.75*max
-	zzAssume(zzAnd(max >= 4*time.Second, max <= 1800*time.Second))
-	zzAssume(zzAnd(min >= 3*time.Second, min <= max))
+	min, max := config.ZZAcceptedIntervals()
+	zzCover("accepted-pair")
 	d := multicastDelay(nil, i, min, max)
+
+	// declarative facts from the statement
 	zzAssert(d > 0, "positive")
 	zzAssert(d%time.Second == 0, "whole-seconds")
-	zzAssert(zzAnd(d > min-500*time.Millisecond, d <= max+500*time.Millisecond), "within-min-max")
+	zzAssert(d <= zzRoundSec(max), "at-most-max")
+	capped := zzAnd(i < 3, zzRoundSec(min) > 16*time.Second)
+	zzAssert(zzOr(d >= zzRoundSec(min), capped), "at-least-min")
 	zzAssert(zzImplies(i < 3, d <= 16*time.Second), "initial-cap")
+	zzAssert(zzImplies(capped, d == 16*time.Second), "cap-is-16s")
+	// uncapped values are never reduced: with i >= 3 the wait can exceed 16s
+	zzAssert(zzImplies(zzAnd(i >= 3, min > 17*time.Second), d > 16*time.Second), "no-cap-after-initial")
 }
